@@ -400,36 +400,65 @@ def check_calc_kA(led):
                 beta = kw['beta']
                 gamma = kw.get('gamma', P.const(0))
             isx = flow.lower() == 'x'
-            wrap, terms = pycheck.terms_of(kA)
             curved = geom == 'cpanel' and isx
-            if len(terms) < 1:
-                probs.append('no kernel term')
-            else:
-                # the flow-derivative part must be completed skew-symmetrically, the curvature part symmetrically
-                flowterms = []
-                for kscale, t in terms:
-                    if not (isinstance(t, Opaque) and t.kind == 'kernel'):
-                        probs.append('unexpected term %s' % pycheck.describe(t))
-                        continue
-                    flowterms.append((kscale, t))
-                kern = flowterms[0][1] if flowterms else None
-                if kern is not None:
+            gamma_zero = (isinstance(gamma, P) and gamma.is_zero()) or any(
+                isinstance(c_, pysym.Cond) and c_.kind == 'cmp' and c_.a == '==' and isinstance(gamma, P) and (normal(c_.b - gamma).is_zero() or normal(c_.b + gamma).is_zero())
+                for c_ in path.conds)
+            wrap, terms = pycheck.terms_of(kA)
+            # every term: (completion applied to it, kernel)
+            parts = []
+            for kscale, t in terms:
+                w_ = list(wrap)
+                while isinstance(t, Opaque) and t.kind in ('symmetrized', 'skew-symmetrized', 'csr'):
+                    w_.append(t.kind)
+                    t = t.f['of']
+                if not (isinstance(t, Opaque) and t.kind == 'kernel') or kscale != 1:
+                    probs.append('unexpected term %s' % pycheck.describe(t))
+                    continue
+                parts.append(([x_ for x_ in w_ if x_ != 'csr'], t))
+            zero = P.const(0)
+            if not fin:
+                # the raw kernel output (upper triangle of both parts), nothing completed
+                if len(parts) != 1 or parts[0][0]:
+                    probs.append('finalize=False: expected the bare kernel result, got %d terms with completions %s' % (len(parts), [w_ for w_, _ in parts]))
+                else:
+                    kern = parts[0][1]
                     if isx:
-                        args = dict(sw, beta=beta, gamma=gamma if curved else kern.f['args'].get('gamma'))
-                        d = pycheck.diff_kernel(kern, 'fkAx', g['model'], args, want)
+                        probs += pycheck.diff_kernel(kern, 'fkAx', g['model'], dict(sw, beta=beta, gamma=gamma if curved else kern.f['args'].get('gamma')), want)
                     else:
-                        d = pycheck.diff_kernel(kern, 'fkAy', g['model'], dict(sw, beta=beta), want)
-                    probs += d
-                if fin:
-                    if curved and not (isinstance(gamma, P) and gamma.is_zero()):
-                        ok_struct = len(terms) == 2
-                        if not ok_struct:
+                        probs += pycheck.diff_kernel(kern, 'fkAy', g['model'], dict(sw, beta=beta), want)
+            else:
+                flow_parts = [(w_, k_) for w_, k_ in parts if w_ == ['skew-symmetrized']]
+                curv_parts = [(w_, k_) for w_, k_ in parts if w_ == ['symmetrized']]
+                other = [w_ for w_, k_ in parts if w_ not in (['skew-symmetrized'], ['symmetrized'])]
+                if other:
+                    probs.append('a term is completed by %s' % other)
+                if len(flow_parts) != 1:
+                    probs.append('%d skew-symmetrically completed terms, expected the flow-derivative part' % len(flow_parts))
+                else:
+                    kern = flow_parts[0][1]
+                    if isx:
+                        g_arg = kern.f['args'].get('gamma')
+                        g_arg = g_arg if isinstance(g_arg, P) else P.const(g_arg if g_arg is not None else 0)
+                        if curved and not gamma_zero and not normal(g_arg).is_zero():
                             probs.append('curved panel with gamma != 0: the whole matrix (flow part AND curvature part) is completed by '
                                          'make_skew_symmetric; the curvature part -gamma*int(w_A w_B) must be symmetric')
-                    elif wrap[:1] != ['skew-symmetrized'] and 'skew-symmetrized' not in wrap:
-                        probs.append('flow part not completed skew-symmetrically')
-                elif wrap:
-                    probs.append('matrix completed although finalize=False')
+                        probs += pycheck.diff_kernel(kern, 'fkAx', g['model'], dict(sw, beta=beta, gamma=kern.f['args'].get('gamma')), want)
+                        if not (normal(g_arg).is_zero() or (normal(g_arg - gamma).is_zero() and (gamma_zero or not curved))):
+                            if not any('curvature part' in x_ for x_ in probs):
+                                probs.append('flow part computed with gamma = %s' % g_arg)
+                    else:
+                        probs += pycheck.diff_kernel(kern, 'fkAy', g['model'], dict(sw, beta=beta), want)
+                need_curv = curved and not gamma_zero and not any('curvature part' in x_ for x_ in probs)
+                if need_curv:
+                    if len(curv_parts) != 1:
+                        probs.append('%d symmetrically completed terms, expected the curvature part -gamma*int(w_A w_B)' % len(curv_parts))
+                    else:
+                        probs += ['curvature part: ' + x_ for x_ in pycheck.diff_kernel(curv_parts[0][1], 'fkAx', g['model'], dict(sw, beta=zero, gamma=gamma), want)]
+                elif curv_parts:
+                    # an additional symmetric part is fine only if it is the curvature kernel of this panel
+                    for w_, k_ in curv_parts:
+                        probs += ['curvature part: ' + x_ for x_ in pycheck.diff_kernel(k_, 'fkAx', g['model'], dict(sw, beta=zero, gamma=gamma), want)]
             report(led, name, func, probs, replay=replay_kA_gamma if any('curvature part' in x for x in probs) else None,
                    signature=('gamma-part-skewed' if any('curvature part' in x for x in probs) else None))
     led.solver_time('z3-feasibility', it.solver_time)
